@@ -130,7 +130,7 @@ def run_impl_many(plugin, cases, procs=None):
     stop_after = int(os.environ.get("VERIF_ABNORMAL_STOP", "12"))
     out, bad = [], 0
     pool = ctx.Pool(procs, initializer=_worker_init, initargs=(plugin.__name__, REPO))
-    chunk = max(1, min(4, len(cases) // (procs * 8) or 1))
+    chunk = 1          # IMapIterator.next(timeout) exists only for chunksize 1
     # hard limit per result: the in-worker alarm cannot interrupt a loop that never returns to the bytecode
     # interpreter (e.g. list.extend over an endless iterator); the parent then gives up on that case
     hard = chunk * getattr(plugin, "CASE_TIMEOUT", 10) + 60
